@@ -310,6 +310,7 @@ func Depth1() []*Spec {
 	out = append(out, OneOfSpecs()...)
 	out = append(out, ScopeSpecs()...)
 	out = append(out, MapObjAll("All"), MapObjColl("Coll"), MapObjTyped("Typed"))
+	out = append(out, DeepShapeSpec()) // three levels of by-value struct nesting with defaults at every level
 	out = append(out, OneOfAllSpecs()...)
 	return out
 }
